@@ -327,6 +327,41 @@ def ref_suite(ctx, name, lines, res):
     res.suite_info.append({'suite': name, **info})
 
 
+def refseq_suite(ctx, name, lines, res):
+    """updates through all paths one query returned, in result order: (paths, which writes happened, document afterwards)"""
+    if not lines: return
+    real = run_sharded(HBIN, 'refseq', [harness_line(l) for l in lines])
+    model = run_sharded(MBIN, 'refseq', lines)
+    assert len(real) == len(model) == len(lines)
+    info = collections.Counter()
+    for ln, rl, ml in zip(lines, real, model):
+        c = json.loads(ln); r = json.loads(rl); m = json.loads(ml)
+        res.stats['cases'] += 1; info['cases'] += 1
+        if 'skipped' in r or 'skipped' in m or 'badjson' in r or 'badjson' in m: res.stats['skip:not_run'] += 1; continue
+        flags = m.get('flags') or {}
+        if flags.get('regex_unsupported'): res.stats['skip:regex_unsupported'] += 1; continue
+        if status_of(r) in ('panic', 'abort', 'timeout'):
+            res.violations.append({'suite': name, 'mode': 'refseq', 'case': c, 'real': r, 'model': m, 'why': status_of(r)}); info['violations'] += 1; continue
+        corr = norm(r) != norm(m['impl'])
+        if corr: res.corr_fail.append({'suite': name, 'mode': 'refseq', 'case': c, 'real': r, 'model': m}); info['corr_fail'] += 1
+        if m.get('rfc') in ('invalid', 'unjudged', None) or 'spec' not in m: res.stats['skip:rfc_' + str(m.get('rfc'))] += 1; continue
+        if 'err' in r:
+            res.stats['real_err'] += 1
+        nwrites = sum(1 for w in r.get('wrote', []) if w)
+        if nwrites >= 2: res.nontrivial.add(chash([c['q'], c['doc'], c['news']])); info['multi_write'] += 1
+        rs = {k: r.get(k) for k in ('wrote', 'after')}; ss = {k: m['spec'].get(k) for k in ('wrote', 'after')}
+        if norm(rs) != norm(ss):
+            in_class = [k for k in ctx.my_kf if k['class'] in KF_FLAG and KF_FLAG[k['class']](flags, c)]
+            if in_class and not corr:
+                res.stats['known_finding_cases'] += 1
+                for k in in_class: res.kf_seen.setdefault(k['id'], k['what'])
+            else:
+                res.violations.append({'suite': name, 'mode': 'refseq', 'case': c, 'real': r, 'model': m,
+                                       'why': 'updates through the paths a query returned did not change exactly the reported nodes'}); info['violations'] += 1
+        elif nwrites >= 2 and len(res.samples) < 6: res.samples.append({'suite': name, 'q': c['q'], 'doc': c['doc'], 'news': c['news']})
+    res.suite_info.append({'suite': name, **info})
+
+
 # ------------------------------------------------------------------------------------------------ regex (C10)
 def regex_suite(ctx, name, lines, res):
     if not lines: return
@@ -542,6 +577,7 @@ def run(ctx, round_no=0):
         if first and corpus_lines('ref.jsonl'): ref_suite(ctx, 'corpus', corpus_lines('ref.jsonl'), res)
         if first: eval_suite(ctx, 'kf-witnesses', kf_lines(ctx), res)
         eval_suite(ctx, 'query-paths-fed-back', g('gen_eval.py', seed, 6000 * S) + g('gen_small.py', p, seed, 3000 * S), res)
+        refseq_suite(ctx, 'update-sequences', g('gen_refseq.py', seed, 5000 * S), res)
         ref_suite(ctx, 'ref', g('gen_ref.py', seed, 12000 * S), res)
     elif p == 'C12':
         res.rule = ('histories: seeded sequences of evaluations interleaving several queries and documents, each also by pre-parsed query and from N threads '
@@ -635,5 +671,6 @@ def replay(ctx, path):
         else: parse_suite(ctx, 'replay', [c], res)
     elif mode == 'ref': ref_suite(ctx, 'replay', [json.dumps({**c, 'tdoc': tag(c['doc']), 'tnew': tag(c['new'])}, ensure_ascii=False)], res)
     elif mode == 'regex': regex_suite(ctx, 'replay', [json.dumps(c, ensure_ascii=False)], res)
+    elif mode == 'refseq': refseq_suite(ctx, 'replay', [json.dumps({**c, 'tdoc': tag(c['doc']), 'tnews': [tag(v) for v in c['news']]}, ensure_ascii=False)], res)
     elif mode == 'hist': hist_suite(ctx, 'replay', [json.dumps(c, ensure_ascii=False)], res)
     return res
